@@ -237,7 +237,15 @@ def oracle(sc, res):
         ok = any(due <= f <= due + 2 for f in fires[max(0, i - 2):i + 3])
         while i < len(fires) and fires[i] < due:
             i += 1
-        ok = i < len(fires) and due <= fires[i] <= due + 2
+        # (a timer that falls due while the job thread is inside a long application callback of the scenario itself — the
+        # 'park' of the storm family — fires when that callback returns: the thread is not idle then)
+        late = due + 2
+        for ev in sc['script']:
+            if ev['op'] == 'add_timer':
+                for op in ev.get('script') or []:
+                    if op.get('op') == 'park' and ev['t'] + ev['delta'] <= due <= ev['t'] + ev['delta'] + op['d'] + 4:
+                        late = max(late, ev['t'] + ev['delta'] + op['d'] + 6)
+        ok = i < len(fires) and due <= fires[i] <= late
         if not ok:
             v.append(dict(kind='timer-not-on-time', due=due, next_fire=(fires[i] if i < len(fires) else None)))
             break
